@@ -31,7 +31,7 @@ STD_NAMES = {128: "1.2.112.0.2.0.34.101.45.3.1",
              256: "1.2.112.0.2.0.34.101.45.3.3"}
 # p = 2^{2l} - c (tables B.1-B.3 of the standard)
 STD_C = {128: 189, 192: 317, 256: 569}
-RETRIES = 64          # B_PER_IMPOSSIBLE: candidates tried after the first one
+RETRIES = 64          # B_PER_IMPOSSIBLE (defs.h): candidates tried after the first one; the check re-reads it from defs.h
 OID_BELT_HASH = "1.2.112.0.2.0.34.101.31.81"
 
 OK = "ERR_OK"
@@ -601,8 +601,8 @@ def selftest(lib, levels=(128, 192, 256)):
     # rejection-sampling convention
     q = M.q
     need(M.rand_nz(Tape(le(0, 32) + le(q, 32) + le(5, 32))) == 5, "rand_nz skips 0 and q")
-    need(M.rand_nz(Tape(le(q, 32) * 64 + le(q - 1, 32))) == q - 1, "rand_nz: 64 bad + good -> good")
-    need(M.rand_nz(Tape(le(q, 32) * 65 + le(q - 1, 32))) is None, "rand_nz: 65 bad -> failure")
+    need(M.rand_nz(Tape(le(q, 32) * RETRIES + le(q - 1, 32))) == q - 1, "rand_nz: B_PER_IMPOSSIBLE bad + good -> good")
+    need(M.rand_nz(Tape(le(q, 32) * (RETRIES + 1) + le(q - 1, 32))) is None, "rand_nz: B_PER_IMPOSSIBLE + 1 bad -> failure")
     # other levels: internal consistency only (no appendix vectors for l = 192, 256 in the repository)
     for l in levels:
         if l == 128:
